@@ -27,6 +27,9 @@ CFGS = {
                PullRetry=0, PullAuto=-1, PullEnabled=False, Hook=True),
     "S2": dict(RtmpPubs=["p1"], RtspPubs=[], CustPubs=["k1"], PsPubs=[], RtmpSubs=["s1"], FlvSubs=[], WirePubs=["w1"], MaxSweep=4,
                PullRetry=0, PullAuto=-1, PullEnabled=False, Hook=False),
+    # RTSP publishers set up completely (interleaved), keep-alives on the command connection, players asking for the description
+    "S3": dict(RtmpPubs=["p1"], RtspPubs=["q1", "q2"], CustPubs=[], PsPubs=[], RtmpSubs=["s1"], FlvSubs=[], MaxSweep=3, Describe=True,
+               PullRetry=0, PullAuto=-1, PullEnabled=False, Hook=True),
     "P0": dict(RtmpPubs=[], RtspPubs=[], CustPubs=[], PsPubs=[], RtmpSubs=["s1"], FlvSubs=[],
                PullRetry=1, PullAuto=-1, PullEnabled=True, Hook=False),
     "P4": dict(RtmpPubs=["p1"], RtspPubs=[], CustPubs=[], PsPubs=[], RtmpSubs=[], FlvSubs=[],
@@ -74,6 +77,7 @@ def write_cfg(cid, mode, max_tick, max_att):
     lines.append("  MaxTick = %d" % max_tick)
     lines.append("  MaxAttempts = %d" % max_att)
     lines.append("  WirePubs = %s" % tla_set(c.get("WirePubs", [])))
+    lines.append("  DescribeOn = %s" % ("TRUE" if c.get("Describe", False) else "FALSE"))
     lines.append("  MaxSweep = %d" % (c.get("MaxSweep", 0) if mode != "trace" else 1000000))
     lines.append("INVARIANTS " + INVS)
     if mode == "trace":
@@ -98,7 +102,8 @@ def drv_cfg(cid):
             "rtmpSubs": c["RtmpSubs"], "flvSubs": c["FlvSubs"], "pullRetry": c["PullRetry"],
             "pullAutoMs": (-1 if c["PullAuto"] < 0 else c["PullAuto"] * 700), "hook": c.get("Hook", True), "outputs": c.get("Outputs", False), "leak": 0,
             "pushTargets": c.get("Push", []), "paramLen": c.get("ParamLen", 0), "wirePubs": c.get("WirePubs", []),
-            "tsSubs": c.get("TsSubs", []), "httpNotify": c.get("HttpNotify", False)}
+            "tsSubs": c.get("TsSubs", []), "httpNotify": c.get("HttpNotify", False),
+            "rtspWire": c.get("MaxSweep", 0) > 0}
 
 
 def signature(r):
